@@ -19,6 +19,7 @@ import (
 
 	gcommon "github.com/ethereum/go-ethereum/common"
 	gmemdb "github.com/ethereum/go-ethereum/ethdb/memorydb"
+	grlp "github.com/ethereum/go-ethereum/rlp"
 	gtrie "github.com/ethereum/go-ethereum/trie"
 
 	"github.com/kardiachain/go-kardia/kai/kaidb/memorydb"
@@ -150,6 +151,201 @@ func verifyClass(root common.Hash, key []byte, db *memorydb.Database) (string, [
 		return "a", nil, false
 	}
 	return "v:" + hx(val), val, false
+}
+
+// ---------------------------------------------------------------- independent proof verifier
+//
+// A second implementation of proof verification, written against go-ethereum's rlp package and
+// the node rules of the yellow paper / trie/node.go's own comments: a node is a list of 2 or 17
+// items; a child reference is the empty string, a 32-byte hash, or an embedded node whose whole
+// encoding is "smaller than a hash"; the key of a 2-item node is hex-prefix encoded.  Two
+// leniencies of today's decoder are accepted here too and only counted (reported separately):
+// an embedded node of exactly 32 bytes, and hex-prefix flag nibbles above 3.
+
+type refNode struct {
+	kind     int // 0 nil, 1 value, 2 hash, 3 short, 4 full
+	key      []byte
+	val      []byte
+	child    *refNode
+	children [17]*refNode
+}
+
+type refStats struct{ emb32, oddFlag bool }
+
+func refCompactToHex(c []byte, st *refStats) []byte {
+	if len(c) == 0 {
+		return nil
+	}
+	flag := c[0] >> 4
+	if flag > 3 || (flag&1 == 0 && c[0]&15 != 0) {
+		st.oddFlag = true
+	}
+	var nib []byte
+	if flag&1 == 1 {
+		nib = append(nib, c[0]&15)
+	}
+	for _, b := range c[1:] {
+		nib = append(nib, b>>4, b&15)
+	}
+	if flag >= 2 {
+		nib = append(nib, 16)
+	}
+	return nib
+}
+
+func refDecodeRef(buf []byte, st *refStats) (*refNode, []byte, bool) {
+	kind, val, rest, err := grlp.Split(buf)
+	if err != nil {
+		return nil, nil, false
+	}
+	switch {
+	case kind == grlp.List:
+		size := len(buf) - len(rest)
+		if size > 32 {
+			return nil, nil, false
+		}
+		if size == 32 {
+			st.emb32 = true
+		}
+		n, ok := refDecodeNode(buf[:size], st)
+		return n, rest, ok
+	case kind == grlp.String && len(val) == 0:
+		return &refNode{kind: 0}, rest, true
+	case kind == grlp.String && len(val) == 32:
+		return &refNode{kind: 2, val: val}, rest, true
+	}
+	return nil, nil, false
+}
+
+func refDecodeNode(buf []byte, st *refStats) (*refNode, bool) {
+	if len(buf) == 0 {
+		return nil, false
+	}
+	elems, _, err := grlp.SplitList(buf)
+	if err != nil {
+		return nil, false
+	}
+	c, err := grlp.CountValues(elems)
+	if err != nil {
+		return nil, false
+	}
+	switch c {
+	case 2:
+		kbuf, rest, err := grlp.SplitString(elems)
+		if err != nil {
+			return nil, false
+		}
+		key := refCompactToHex(kbuf, st)
+		if len(key) > 0 && key[len(key)-1] == 16 {
+			v, _, err := grlp.SplitString(rest)
+			if err != nil {
+				return nil, false
+			}
+			return &refNode{kind: 3, key: key, child: &refNode{kind: 1, val: v}}, true
+		}
+		ch, _, ok := refDecodeRef(rest, st)
+		if !ok {
+			return nil, false
+		}
+		return &refNode{kind: 3, key: key, child: ch}, true
+	case 17:
+		n := &refNode{kind: 4}
+		for i := 0; i < 16; i++ {
+			ch, rest, ok := refDecodeRef(elems, st)
+			if !ok {
+				return nil, false
+			}
+			n.children[i], elems = ch, rest
+		}
+		v, _, err := grlp.SplitString(elems)
+		if err != nil {
+			return nil, false
+		}
+		if len(v) > 0 {
+			n.children[16] = &refNode{kind: 1, val: v}
+		} else {
+			n.children[16] = &refNode{kind: 0}
+		}
+		return n, true
+	}
+	return nil, false
+}
+
+// refVerify: class "v:<hex>", "a" (absent) or "e" (invalid proof)
+func refVerify(root []byte, key []byte, lookup func([]byte) []byte, st *refStats) string {
+	var nib []byte
+	for _, b := range key {
+		nib = append(nib, b>>4, b&15)
+	}
+	nib = append(nib, 16)
+	want := root
+	for steps := 0; steps < 1000; steps++ {
+		buf := lookup(want)
+		if len(buf) == 0 {
+			return "e"
+		}
+		n, ok := refDecodeNode(buf, st)
+		if !ok {
+			return "e"
+		}
+	walk:
+		for {
+			switch n.kind {
+			case 0:
+				return "a"
+			case 1:
+				if len(n.val) == 0 {
+					return "a"
+				}
+				return "v:" + hx(n.val)
+			case 2:
+				want = n.val
+				break walk
+			case 3:
+				if len(nib) < len(n.key) || !bytes.Equal(n.key, nib[:len(n.key)]) {
+					return "a"
+				}
+				nib = nib[len(n.key):]
+				n = n.child
+			case 4:
+				if len(nib) == 0 {
+					return "e"
+				}
+				c := n.children[nib[0]]
+				nib = nib[1:]
+				n = c
+			}
+		}
+	}
+	return "e"
+}
+
+// checkAgainstRef: ORACLE — the implementation's verifier and the independent one agree on every
+// proof, valid or not (a disagreement means VerifyProof accepted or rejected a node encoding
+// differently from the node rules, e.g. an oversized embedded node the hasher can never produce)
+func checkAgainstRef(o *out.Out, step int, desc string, cls string, root common.Hash, key []byte, lookup func([]byte) []byte) {
+	if cls == "PANIC" {
+		return
+	}
+	var st refStats
+	ref := refVerify(root[:], key, lookup, &st)
+	if ref != cls {
+		o.Fail(step, "verify-vs-reference", fmt.Sprintf("%s: VerifyProof answers %s, the independent verifier (go-ethereum rlp, yellow-paper node rules) answers %s", desc, cls, ref))
+	}
+	if ref != "e" && st.emb32 {
+		o.Count("lenient.embedded-node-of-32-bytes-accepted")
+	}
+	if ref != "e" && st.oddFlag {
+		o.Count("lenient.hex-prefix-flag-above-3-accepted")
+	}
+}
+
+func lookupBlobs(blobs [][]byte) func([]byte) []byte {
+	m := map[string][]byte{}
+	for _, b := range blobs {
+		m[string(crypto.Keccak256(b))] = b
+	}
+	return func(h []byte) []byte { return m[string(h)] }
 }
 
 // ---------------------------------------------------------------- independent reference roots
@@ -577,6 +773,7 @@ func doProof(o *out.Out, r *gen.Rand, step int, s int, st *slotState, k []byte, 
 		if p2 {
 			o.Fail(step, "verify-panic", "VerifyProof panicked on tampered proof "+desc)
 		}
+		checkAgainstRef(o, step, "tampered proof "+desc, c2, root, pk, lookupBlobs(blobs))
 		// ORACLE: soundness — a tampered proof never yields a different answer
 		if c2 != "e" && c2 != "PANIC" {
 			if (len(want) == 0) != (c2 == "a") || (len(want) != 0 && !bytes.Equal(v2, want)) {
@@ -619,6 +816,15 @@ func doProof(o *out.Out, r *gen.Rand, step int, s int, st *slotState, k []byte, 
 			if p3 {
 				o.Fail(step, "verify-panic", fmt.Sprintf("VerifyProof panicked on altered node x%d:%d:%d stored under the original hash", i, pos, x))
 			}
+			lk := lookupBlobs(pl.blobs)
+			oh := string(crypto.Keccak256(pl.blobs[i]))
+			checkAgainstRef(o, step, fmt.Sprintf("altered node x%d:%d:%d under its original hash", i, pos, x), c3, root, pk,
+				func(h []byte) []byte {
+					if string(h) == oh {
+						return mb
+					}
+					return lk(h)
+				})
 			obs += " L" + c3
 		}
 		// truncation by one byte
@@ -875,7 +1081,18 @@ func compactKey(nibbles []byte, term bool) []byte {
 // appended to *extra.  Nothing guarantees validity: embedded children may be oversized, counts wrong, ...
 func craftNode(r *gen.Rand, rem []byte, depth int, extra *[][]byte) []byte {
 	child := func(rest []byte) []byte { // a reference to the subtree for rest
-		switch r.Pick(5, 5, 1, 1, 1, 1) {
+		switch r.Pick(5, 5, 1, 1, 1, 1, 3) {
+		case 6: // embedded leaf whose encoding has a chosen total size around the 32-byte limit
+			T := []int{30, 31, 32, 32, 33, 34, 40, 50}[r.Intn(8)]
+			if len(rest) == 0 {
+				return []byte{0x80}
+			}
+			eck := rlpStr(nil, compactKey(rest[:len(rest)-1], true))
+			vlen := T - 2 - len(eck)
+			if vlen < 2 || vlen > 54 {
+				return []byte{0x80}
+			}
+			return rlpList(nil, eck, rlpStr(nil, r.Bytes(vlen)))
 		case 0: // by hash
 			b := craftNode(r, rest, depth+1, extra)
 			*extra = append(*extra, b)
@@ -976,6 +1193,7 @@ func runCrafted(o *out.Out, r *gen.Rand, c int) {
 		// ORACLE (robustness): no proof, however malformed, may crash the verifier
 		o.Fail(0, "verify-panic", "VerifyProof panicked on a crafted proof")
 	}
+	checkAgainstRef(o, 0, "crafted proof", cls, common.BytesToHash(crypto.Keccak256(root)), key, lookupBlobs(blobs))
 	line := "X " + hx(key)
 	for _, b := range blobs {
 		line += " " + hx(b)
